@@ -308,6 +308,12 @@ pub fn light_dist(u: DistUse, allow_zero: bool) -> BoxedStrategy<DistSpec> {
                 start: Fx(lo_min),
                 max: Fx(50_000.0),
             }),
+            // an offset beyond the clamp (start > max > 0): every sample is the maximum
+            1 => (0.0f64..2_000.0, 1.0f64..20_000.0, 1.0f64..40_000.0).prop_map(|(w, max, over)| DistSpec {
+                kind: DistKind::Uniform { low: Fx(0.0), high: Fx(w.round()) },
+                start: Fx((max + over).round()),
+                max: Fx(max.round()),
+            }),
         ]
         .boxed(),
     }
